@@ -369,10 +369,23 @@ class Lowerer:
         self.itrig = getattr(self, "itrig", {})
         if key in self.itrig:
             return self.itrig[key]
+        # collapsing rules: acos(cos b) = b etc., only under a declared range fact for b (a `requires`)
+        for av, (sa, ca_) in list(self.angles.items()):
+            rng = getattr(self, "angle_range", {}).get(av)
+            if rng is None:
+                continue
+            sa, ca_ = Frac.of(R, sa), Frac.of(R, ca_)
+            if op == "ACOS" and rng in ("0_pi", "0_halfpi") and u.equals(ca_):
+                return Frac.of(R, R.vpoly(av))
+            if op == "ATAN" and rng in ("0_halfpi", "sym_halfpi") and (u * ca_).equals(sa):
+                return Frac.of(R, R.vpoly(av))
+            if op == "ASIN" and rng in ("0_halfpi", "sym_halfpi") and u.equals(sa):
+                return Frac.of(R, R.vpoly(av))
         if u.is_const() and u.const_value() == 0 and op in ("ASIN", "ATAN"):
             return Frac.of(R, 0)
         one = Frac.of(R, 1)
-        i = R.var(f"{op.lower()}{len(self.itrig)}", nonneg=(op == "ACOS"))
+        u_nonneg = (not u.den or all(R.known_nonneg(f) for f in u.den)) and R.known_nonneg(u.num)
+        i = R.var(f"{op.lower()}{len(self.itrig)}", nonneg=(op == "ACOS" or (op in ("ATAN", "ASIN") and u_nonneg)))
         if op == "ASIN":
             s, c = u, self.sqrt(one - u * u)
             R.side.append(("asin_domain", u))
@@ -383,7 +396,7 @@ class Lowerer:
             rho = self.sqrt(one + u * u)
             c, s = one / rho, u / rho
         self.angles[i] = (s, c)
-        R.angle_def[i] = (op, u)
+        R.angle_def[i] = (op, u, u_nonneg)
         v = Frac.of(R, R.vpoly(i))
         self.itrig[key] = v
         return v
